@@ -1899,6 +1899,7 @@ func runC13(a runArgs) error {
 		{"obs:ok", "obscancelfail:0"}, {"obs:ok", "obscancelfail:0:dl"}, {"obs:ok", "obscancelfail:0:w"}, {"obs:ok", "obscancelfail:0:pre"},
 		{"obs:ok", "notify:0:2:1", "obscancelfail:0", "notify:0:2:0", "obscancel:0"}, {"obs:ok", "obs:ok", "obscancelfail:1:w", "obscancel:0", "obscancelfail:1"},
 		{"obs:ok", "obscancelfail:0:dl", "obs:ok", "obscancelfail:1:pre", "get"},
+		{"obs:ok", "obs:ok", "obs:ok", "obs:ok", "obscancelfail:0:pre", "obscancelfail:1:pre", "obscancelfail:2:pre", "obscancelfail:3:pre"},
 		// round 4: a queued request is cancelled and delayed between the select of acquireEndpoint and cancelEndpoint;
 		// the request holding the slot ends inside that window (its releaseEndpoint hands the slot to the delayed one)
 		{"hack:1:0", "hack:2:0", "cpark:2", "cancel:1", "cresume:2"}, {"hack:1:0", "hack:2:0", "cpark:2", "cresume:2", "cancel:1"},
